@@ -201,8 +201,8 @@ Qed.
 Lemma max_len_pos ts : forallb (fun t => match tk_demand t with Some (_ :: _) => false | _ => true end) ts = false ->
   (0 < max_len ts)%nat.
 Proof.
-  induction ts as [|t ts IH]; cbn; [discriminate|]. fold (max_len ts). unfold demand_vec.
-  destruct (tk_demand t) as [[|x v]|]; cbn; intros H; try lia; apply IH in H; lia.
+  induction ts as [|t ts IH]; [discriminate|]. cbn [forallb max_len fold_right]. fold (max_len ts). unfold demand_vec.
+  destruct (tk_demand t) as [[|x v]|]; cbn [andb List.length]; intros H; first [apply IH in H; lia | lia].
 Qed.
 
 Lemma k7_jobs d : k7_over8 d = false -> forall j, In j (d_jobs d) -> forall t, In t (all_tasks j) -> task_over8 t = false.
@@ -238,3 +238,216 @@ Proof.
   destruct (Z.eqb_spec (dim_sum i (tasks (j_pickups j)) - dim_sum i (tasks (j_deliveries j))) 0),
            (Z.eqb_spec (dim_sum i (tasks (j_pickups j))) (dim_sum i (tasks (j_deliveries j)))); cbn; try reflexivity; lia.
 Qed.
+
+Lemma ge3_false {A} (l : list A) : ge3 l = false -> (List.length l <= 2)%nat.
+Proof. unfold ge3. intros H. apply Nat.leb_gt in H. lia. Qed.
+
+Lemma raw_windows_spec tws : (List.length tws <= 2)%nat -> check_raw_time_windows tws false = times_ok tws.
+Proof.
+  intros H. unfold check_raw_time_windows, get_time_windows, times_ok.
+  rewrite check_time_windows_spec by now rewrite map_length.
+  rewrite (map_ext _ _ parse_window_eq). now destruct tws.
+Qed.
+
+Lemma e1103_ok d : k1_three_windows d = false -> k2_unchecked_task_times d = false -> check_e1103 d = Some (viol_1103 d).
+Proof.
+  intros H1 H2. unfold check_e1103, viol_1103. f_equal. apply existsb_ext_in. intros j Hj.
+  unfold k1_three_windows in H1. apply orb_false_iff in H1. destruct H1 as [H1 _].
+  rewrite existsb_false in H1. specialize (H1 j Hj). cbn beta in H1.
+  unfold k2_unchecked_task_times in H2. rewrite existsb_false in H2. specialize (H2 j Hj). cbn beta in H2.
+  unfold job_tasks. rewrite (app_assoc (tasks (j_pickups j))), existsb_app, H2, orb_false_r, existsb_app.
+  rewrite existsb_app in H1. apply orb_false_iff in H1. destruct H1 as [H1p H1d].
+  unfold has_invalid_tws. rewrite !tasks_olist in *. f_equal.
+  - apply existsb_ext_in. intros t Ht. apply existsb_ext_in. intros p Hp.
+    rewrite existsb_false in H1p. specialize (H1p t Ht). cbn beta in H1p. rewrite existsb_false in H1p. specialize (H1p p Hp).
+    cbn beta in H1p. destruct (pl_times p) as [tws|]; [|reflexivity]. now rewrite raw_windows_spec by now apply ge3_false.
+  - apply existsb_ext_in. intros t Ht. apply existsb_ext_in. intros p Hp.
+    rewrite existsb_false in H1d. specialize (H1d t Ht). cbn beta in H1d. rewrite existsb_false in H1d. specialize (H1d p Hp).
+    cbn beta in H1d. destruct (pl_times p) as [tws|]; [|reflexivity]. now rewrite raw_windows_spec by now apply ge3_false.
+Qed.
+
+Lemma e1104_ok d : check_e1104 d = Some (viol_1104 d).
+Proof.
+  unfold check_e1104, viol_1104. f_equal. apply existsb_ext_in. intros j _. unfold reserved. cbn [existsb].
+  repeat match goal with |- context [String.eqb ?a ?b] => destruct (String.eqb a b) end; reflexivity.
+Qed.
+Lemma e1105_ok d : check_e1105 d = Some (viol_1105 d).
+Proof.
+  unfold check_e1105, viol_1105. f_equal. apply existsb_ext_in. intros j _. change (job_tasks j) with (all_tasks j). now destruct (all_tasks j).
+Qed.
+Lemma e1106_ok d : check_e1106 d = Some (viol_1106 d).
+Proof. reflexivity. Qed.
+Lemma e1107_ok d : check_e1107 d = Some (viol_1107 d).
+Proof.
+  unfold check_e1107, viol_1107. f_equal. apply existsb_ext_in. intros j _. change (job_tasks j) with (all_tasks j).
+  apply existsb_ext_in. intros t _. now destruct (tk_demand t).
+Qed.
+
+(* ---------- vehicles.rs rules against the documented rules ---------- *)
+Lemma all_shifts_total f g ss : (forall s, In s ss -> f s = Some (g s)) -> all_shifts f ss = Some (forallb g ss).
+Proof.
+  induction ss as [|s ss IH]; intros H; cbn [all_shifts forallb]; [reflexivity|].
+  rewrite (H s) by now left. destruct (g s); cbn -[all_shifts forallb]; [apply IH; intros s0 H0; apply H; cbn; auto|reflexivity].
+Qed.
+Lemma any_vehicle_invalid_total f g vs : (forall v, In v vs -> forall s, In s (v_shifts v) -> f s = Some (g s)) ->
+  any_vehicle_invalid f vs = Some (existsb (fun v => existsb (fun s => negb (g s)) (v_shifts v)) vs).
+Proof.
+  induction vs as [|v vs IH]; intros H; cbn [any_vehicle_invalid existsb]; [reflexivity|].
+  rewrite (all_shifts_total f g) by (apply H; now left). rewrite IH by (intros v0 Hv0 s0 Hs0; apply (H v0); [now right|exact Hs0]).
+  now rewrite negb_forallb.
+Qed.
+
+Lemma e1300_ok d : check_e1300 d = Some (viol_1300 d).
+Proof. unfold check_e1300, viol_1300. now rewrite has_dup_spec. Qed.
+Lemma e1301_ok d : check_e1301 d = Some (viol_1301 d).
+Proof. unfold check_e1301, viol_1301. now rewrite has_dup_spec. Qed.
+
+Lemma shift_window_eq s : get_time_window_from_vec (shift_raw_window s) = shift_window s.
+Proof. unfold shift_raw_window, shift_window, get_time_window_from_vec, get_time_window. now destruct (sh_end s). Qed.
+
+Lemma k1_vehicle d : k1_three_windows d = false -> forall v, In v (d_vehicles d) ->
+  ge3 (v_shifts v) = false /\
+  forall s, In s (v_shifts v) ->
+    (forall bs, sh_breaks s = Some bs -> ge3 (break_windows s bs) = false) /\
+    (forall rs, sh_reloads s = Some rs -> ge3 (reload_windows rs) = false).
+Proof.
+  unfold k1_three_windows. intros H v Hv. apply orb_false_iff in H. destruct H as [_ H].
+  rewrite existsb_false in H. specialize (H v Hv). cbn beta in H. apply orb_false_iff in H. destruct H as [Hs H].
+  split; [exact Hs|]. intros s Hin. rewrite existsb_false in H. specialize (H s Hin). cbn beta in H.
+  apply orb_false_iff in H. destruct H as [Hb Hr]. split.
+  - intros bs E. now rewrite E in Hb.
+  - intros rs E. now rewrite E in Hr.
+Qed.
+
+Lemma e1302_ok d : k1_three_windows d = false -> check_e1302 d = Some (viol_1302 d).
+Proof.
+  intros H1. unfold check_e1302, viol_1302. f_equal. apply existsb_ext_in. intros v Hv.
+  destruct (k1_vehicle d H1 v Hv) as [Hs _]. f_equal.
+  unfold check_raw_time_windows, get_time_windows. rewrite map_map.
+  rewrite check_time_windows_spec by (rewrite map_length; now apply ge3_false).
+  rewrite (map_ext _ _ shift_window_eq). now destruct (v_shifts v).
+Qed.
+
+Lemma shift_span_eq s : get_shift_time_window s = shift_span s.
+Proof. reflexivity. Qed.
+
+(* check_shift_time_windows against "window rules + inside the shift" on at most two windows *)
+Lemma check_shift_windows_spec s ws skip : (List.length ws <= 2)%nat ->
+  check_shift_time_windows (get_shift_time_window s) ws skip
+  = negb (nonempty ws && negb (windows_ok skip ws && inside_shift s ws)).
+Proof.
+  intros Hlen. unfold check_shift_time_windows. destruct ws as [|o ws']; [reflexivity|].
+  set (ws := o :: ws') in *. rewrite check_time_windows_spec by exact Hlen.
+  change (nonempty ws) with true. cbn [andb]. rewrite negb_involutive.
+  destruct (windows_ok skip ws) eqn:Hok; [|reflexivity]. cbn [andb].
+  unfold inside_shift. rewrite shift_span_eq. destruct (shift_span s) as [sp|]; [|reflexivity].
+  assert (Hall := windows_ok_all_some _ _ Hok). clearbody ws. clear Hok Hlen.
+  induction ws as [|x ws IH]; [reflexivity|]. cbn [forallb somes].
+  destruct (Hall x (or_introl eq_refl)) as (w & -> & _). cbn [forallb somes]. rewrite overlap_eq. f_equal.
+  apply IH. intros; apply Hall; now right.
+Qed.
+
+Lemma break_tws_spec s bs :
+  (tm_val (sh_earliest s) = None -> forall b, In b bs -> match b with BReqOff _ _ _ => False | _ => True end) ->
+  break_tws s bs = Some (break_windows s bs).
+Proof.
+  induction bs as [|b bs IH]; intros H; [reflexivity|]. cbn [break_tws break_windows flat_map].
+  rewrite IH by (intros E b' Hb'; apply (H E); now right).
+  fold (break_windows s bs). generalize (break_windows s bs). intros W.
+  destruct b as [w|o|e l dur|e l dur]; cbn [break_tw app].
+  - now rewrite parse_window_eq.
+  - reflexivity.
+  - destruct (tm_val (sh_earliest s)) eqn:E; [reflexivity|]. exfalso. apply (H eq_refl (BReqOff e l dur)). now left.
+  - reflexivity.
+Qed.
+
+Lemma k3_shift d : k3_offset_break_bad_start d = false -> forall v, In v (d_vehicles d) -> forall s, In s (v_shifts v) ->
+  tm_val (sh_earliest s) = None -> forall b, In b (olist (sh_breaks s)) -> match b with BReqOff _ _ _ => False | _ => True end.
+Proof.
+  unfold k3_offset_break_bad_start. intros H v Hv s Hs E b Hb.
+  rewrite existsb_false in H. specialize (H v Hv). cbn beta in H. rewrite existsb_false in H. specialize (H s Hs).
+  cbn beta in H. rewrite E in H. rewrite existsb_false in H. specialize (H b Hb). now destruct b.
+Qed.
+
+Lemma e1303_ok d : k1_three_windows d = false -> k3_offset_break_bad_start d = false -> check_e1303 d = Some (viol_1303 d).
+Proof.
+  intros H1 H3. unfold check_e1303, viol_1303.
+  rewrite (any_vehicle_invalid_total e1303_shift
+           (fun s => match sh_breaks s with
+                     | None => true
+                     | Some bs => let ws := break_windows s bs in
+                                  negb (nonempty ws && negb (windows_ok false ws && inside_shift s ws))
+                     end)).
+  - f_equal. apply existsb_ext_in. intros v _. apply existsb_ext_in. intros s _.
+    destruct (sh_breaks s); [now rewrite negb_involutive|reflexivity].
+  - intros v Hv s Hs. unfold e1303_shift. destruct (sh_breaks s) as [bs|] eqn:Eb; [|reflexivity].
+    rewrite break_tws_spec.
+    + f_equal. apply check_shift_windows_spec. apply ge3_false.
+      destruct (k1_vehicle d H1 v Hv) as [_ Hk]. now apply (Hk s Hs).
+    + intros E b Hb. apply (k3_shift d H3 v Hv s Hs E). now rewrite Eb.
+Qed.
+
+Lemma reload_windows_eq rs : reload_tws rs = reload_windows rs.
+Proof.
+  unfold reload_tws, reload_windows. induction rs as [|r rs IH]; [reflexivity|]. cbn [flat_map]. rewrite IH. f_equal.
+Qed.
+
+Lemma e1304_ok d : k1_three_windows d = false -> check_e1304 d = Some (viol_1304 d).
+Proof.
+  intros H1. unfold check_e1304, viol_1304.
+  rewrite (any_vehicle_invalid_total e1304_shift
+           (fun s => match sh_reloads s with
+                     | None => true
+                     | Some rs => let ws := reload_windows rs in
+                                  negb (nonempty ws && negb (windows_ok true ws && inside_shift s ws))
+                     end)).
+  - f_equal. apply existsb_ext_in. intros v _. apply existsb_ext_in. intros s _.
+    destruct (sh_reloads s); [now rewrite negb_involutive|reflexivity].
+  - intros v Hv s Hs. unfold e1304_shift. destruct (sh_reloads s) as [rs|] eqn:Er; [|reflexivity].
+    rewrite reload_windows_eq. f_equal. apply check_shift_windows_spec. apply ge3_false.
+    destruct (k1_vehicle d H1 v Hv) as [_ Hk]. now apply (Hk s Hs).
+Qed.
+
+Lemma e1306_ok d : check_e1306 d = Some (viol_1306 d).
+Proof. unfold check_e1306, viol_1306. f_equal. apply existsb_ext_in. intros v _. apply andb_comm. Qed.
+
+Lemma e1307_ok d : check_e1307 d = Some (viol_1307 d).
+Proof.
+  unfold check_e1307, viol_1307.
+  rewrite (any_vehicle_invalid_total e1307_shift
+             (fun s => match sh_breaks s with
+                       | None => true
+                       | Some bs => negb (existsb is_offset_break bs
+                                          && match sh_latest s with
+                                             | None => true
+                                             | Some l => negb (String.eqb (tm_txt l) (tm_txt (sh_earliest s)))
+                                             end)
+                       end)).
+  - f_equal. apply existsb_ext_in. intros v _. apply existsb_ext_in. intros s _.
+    destruct (sh_breaks s) as [bs|]; [|reflexivity]. rewrite negb_involutive. f_equal.
+    + apply existsb_ext_in. intros b _. now destruct b.
+    + now destruct (sh_latest s).
+  - intros v _ s _. unfold e1307_shift. now destruct (sh_breaks s).
+Qed.
+
+Lemma e1308_ok d : check_e1308 d = Some (viol_1308 d).
+Proof.
+  unfold check_e1308, viol_1308. rewrite has_dup_spec. change (olist (d_resources d)) with (match d_resources d with Some l => l | None => [] end).
+  set (ids := match d_resources d with Some l => l | None => [] end).
+  destruct (nodupb ids); cbn [negb orb]; [|reflexivity].
+  rewrite (any_vehicle_invalid_total (e1308_shift ids)
+             (fun s => forallb (fun r => match rl_resource r with Some x => mem x ids | None => true end) (olist (sh_reloads s)))).
+  - f_equal. apply existsb_ext_in. intros v _. apply existsb_ext_in. intros s _. rewrite negb_forallb.
+    apply existsb_ext_in. intros r _. now destruct (rl_resource r).
+  - reflexivity.
+Qed.
+
+(* ---------- routing.rs ---------- *)
+Lemma e1500_ok d : check_e1500 d = Some (viol_1500 d).
+Proof. unfold check_e1500, viol_1500. now rewrite has_dup_spec. Qed.
+Lemma e1501_ok d : check_e1501 d = Some (viol_1501 d).
+Proof. unfold check_e1501, viol_1501. now destruct (d_profiles d). Qed.
+Lemma e1504_ok d : check_e1504 d = Some (viol_1504 d).
+Proof. unfold check_e1504, viol_1504. now destruct (d_profiles d). Qed.
+Lemma e1505_ok d : check_e1505 d = Some (viol_1505 d).
+Proof. reflexivity. Qed.
